@@ -913,3 +913,43 @@ def r17_11_offset_bucket_range(ctx: Ctx) -> RuleResult:
         else:
             rr.fail(f.qual, f"parsed fields {'-' if neg else '+'}{h:02d}:{m_:02d}:{s_:02d} build an offset of {sorted(got) or seen} seconds, not {want}: the sign must apply to the whole of hours, minutes and seconds", ctx.loc(f))
     return rr
+
+
+@rule("C17")
+def r17_13_hour_24(ctx: Ctx) -> RuleResult:
+    """ISO 8601 writes midnight at the end of a day as 24:00:00.  The date-time bucket accepts it by turning hour 24 into hour 0 of
+    the following day: where it recognises `_hours_24 == 24` it must reset the time bucket's hour to 0 BEFORE the time bucket
+    computes its value (which rejects 24 as out of range) and remember to add the day.  Checked on the statements of
+    _combine_buckets: the reset is under the `== 24` test and precedes the time bucket's _calculate_value call; the flag it sets
+    is read afterwards."""
+    rr = RuleResult("R17.13", "hour 24 (ISO end-of-day midnight): the date-time bucket resets the time bucket's hour to 0 under the `== 24` test before the time value is calculated, and adds a day afterwards", min_instances=1)
+    M = ctx.M
+    f = M.func("_LocalDateTimeParseBucket._combine_buckets")
+    rr.inst()
+    calc = next((n for n in own_nodes(f.node) if isinstance(n, ast.Call) and isinstance(n.func, ast.Attribute) and n.func.attr == "_calculate_value" and "time" in unparse(n.func.value)), None)
+    if calc is None:
+        raise AnalysisError(f"{f.qual}: time bucket's _calculate_value call not found")
+    from ..exc import facts_at
+
+    reset = None
+    test = None
+    for s_ in own_nodes(f.node):
+        if isinstance(s_, ast.Assign) and any(isinstance(t, ast.Attribute) and t.attr == "_hours_24" for t in s_.targets) and isinstance(s_.value, ast.Constant) and s_.value.value == 0 and s_.lineno < calc.lineno:
+            facts = facts_at(s_)
+            is24 = any(op == "==" and {a.split(".")[-1], b} >= {"_hours_24", "24"} for a, op, b in facts) or any(op == "==" and {b.split(".")[-1], a} >= {"_hours_24", "24"} for a, op, b in facts)
+            if not is24:
+                # the comparison may have been given a name first: `hour_24 = bucket._hours_24 == 24; if hour_24: ...`
+                for a, op, b in facts:
+                    if op == "truthy" and a.isidentifier():
+                        defs = [d.value for d in own_nodes(f.node) if isinstance(d, (ast.Assign, ast.AnnAssign)) and d.value is not None and isinstance((d.targets[0] if isinstance(d, ast.Assign) else d.target), ast.Name) and (d.targets[0] if isinstance(d, ast.Assign) else d.target).id == a]
+                        if defs and all(isinstance(d, ast.Compare) and "_hours_24" in unparse(d) and "24" in unparse(d) and isinstance(d.ops[0], ast.Eq) for d in defs):
+                            is24 = True
+            if is24:
+                reset = s_
+                test = s_
+    plus_day = any(isinstance(n, ast.Call) and isinstance(n.func, ast.Attribute) and n.func.attr in ("plus_days", "next_day") for n in own_nodes(f.node))
+    if reset is not None and plus_day:
+        rr.ok({"function": f.qual, "reset": unparse(reset), "before": unparse(calc)[:50]})
+    else:
+        rr.fail(f.qual, "hour 24 is not turned into hour 0 (under the `_hours_24 == 24` test, before the time bucket calculates its value) plus one day: `2020-02-28T24:00:00`, valid ISO 8601, is rejected or lands on the wrong day", ctx.loc(f, test) if test is not None else ctx.loc(f))
+    return rr
